@@ -73,7 +73,7 @@ prop(
     "C18",
     title="Creation times convert to and from Windows timestamps without drift",
     technique="law-checking runtime monitor (drift < 100 ns, idempotence, monotonicity, saturation) through Package::summary_info_mut(), with a save+reopen sample",
-    rule="every tick within +-300 ticks of 1601-01-01, 1970-01-01 and tick 2^64-1 with sub-tick ns 0..199, and of +-(2^64-1) ticks from 1970 (must saturate); platform SystemTime extremes; save+reopen with 1,800 comment lengths that move "
+    rule="every tick within +-300 ticks of 1601-01-01, 1970-01-01 and tick 2^64-1 with sub-tick ns 0..199, and of +-(2^64-1) ticks from 1970 (must saturate); platform SystemTime extremes; save+reopen in seven session shapes x three closing modes (time set after table operations / on a reopened package / next to double-byte or NUL-containing strings) and with 1,800 comment lengths that move "
          "the stored time across the 4/8/16 KiB boundaries of the summary stream; "
          "uniform / log-uniform / clustered / modern random times sorted in blocks of 256; distinct = (class, magnitude bucket, sub-tick residue, tick mod 8)",
     level_text="Millions of set/get executions on a live package with exact integer (i128 ns) oracles for the four laws; 1 in 4096 values also goes "
@@ -104,7 +104,7 @@ prop(
     title="Everything written is read back after close and reopen",
     technique="close-point runtime monitor on an instrumented medium (live + durable-at-flush images), model-checked observations, every history position closed in all three modes",
     rule="directed scenarios (empty-string cells, shared strings, >64 KiB strings, integer boundaries, 3 package types, each of the 26 code pages "
-         "with strings from its repertoire, multi-byte summary strings, a 32-column table), directed save intervals holding SEVERAL operations (string change + re-setting the current code page, "
+         "with strings from its repertoire, multi-byte summary strings, a 32-column table, 1- and 2-character columns, long non-ASCII strings whose UTF-8 and encoded lengths straddle 65,535 bytes), directed save intervals holding SEVERAL operations (string change + re-setting the current code page, "
          "table change + summary change, stream + table + summary) and seeded random histories (create/drop table, insert, update, delete, "
          "streams, 20 summary setters/clearers, code-page changes); a close point after EVERY operation, each history run 3 times with mode(i) = "
          "(i+pass) mod 3; distinct = fingerprint of (operation kinds, schema shapes, value classes, close modes); non-trivial = at least one successful mutation",
@@ -173,9 +173,9 @@ prop(
     technique="before/after snapshot runtime monitor around ~90 families of deliberately invalid calls at random reachable states: live observation, reopened observation and independently decoded file must all equal the pre-call state",
     rule="random states (3-14 valid operations, optional reopen) x invalid-call families: name checks, column-list checks, LATE create_table failures (33-64 char column "
          "names, 33-60 char table names, enum sets over 255 chars, bad foreign keys, ranges with i32::MIN, unrepresentable widths), drop/insert/update/delete/select/stream "
-         "calls with unknown/invalid/reserved names, wrong arity, invalid value in first/last batch row, duplicate keys vs existing rows and within the batch, key-collision "
+         "calls with unknown/invalid/reserved names, wrong arity, wrong-typed members of an enumeration, invalid value in first/last batch row, duplicate keys vs existing rows and within the batch, key-collision "
          "updates; each family also in isolation on fresh states; refused calls at the capacity limits (65,537th row carrying a new string, 65,536th pool entry via insert/update, "
-         "create_table whose catalog rows need one string more than the 3 free entries) incl. string accounting of the saved file; distinct = (family, table count, row-count class); non-trivial = the call returned Err and all three comparisons ran",
+         "create_table whose catalog rows need one string more than the 3 free entries) incl. string accounting of the saved file; eight scenarios on a package whose _Validation table was uncatalogued by hand and reopened; distinct = (family, table count, row-count class); non-trivial = the call returned Err and all three comparisons ran",
     level_text="The monitor only binds calls that actually returned Err; for those it compares the complete API snapshot, the snapshot after flush+reopen, and the "
                "independent decoder's string accounting (no pool entry, catalog row or text of the rejected call may exist).",
     level_note="A call the generator meant to be invalid but the library accepts is counted (unexpected_ok) and left to C06/C07.",
@@ -206,7 +206,7 @@ prop(
     rule="all strings up to length 5-7 over per-category adversarial alphabets (identifier/property/cabinet, version, language, upper/lower), signed/zero-padded integer "
          "texts around the 16/32-bit limits, a GUID with every position mutated, widths at w-1/w/w+1 with multi-byte characters, integers within +-2 of every boundary and "
          "declared bound, random Unicode strings; then ~26k inserts + ~20k updates on a live package, every gate both in the creating session and after save + reopen, single-value ranges, updates assigning the column twice "
-         "(one value invalid, either order), arity 0..33; distinct = (category, verdict, length, character-class mask) "
+         "(one value invalid, either order), rows holding the candidate string twice (free column + tested column), directed library-built language lists and UUIDs, arity 0..33; distinct = (category, verdict, length, character-class mask) "
          "resp. (column shape, value shape); non-trivial = library and reference were both evaluated",
     level_text="Both Category::validate / Column::is_valid_value and the Ok/Err of insert_rows / update_rows are compared with a predicate written from the documentation; "
                "spots the documentation leaves open are marked Unspecified and accept either answer.",
@@ -267,7 +267,7 @@ prop(
     technique="translation round trip through two independent implementations at run time: Obs(open(encode(db))) vs the independent decoder's view, then decode(save(apply(ops))) vs the reference model",
     rule="format-level generator: 0-6 tables x 1-32 columns of any type mix, unique keys, values valid for the schema, x option vectors (3-byte references, pool holes, "
          "duplicate entries, over-counted refcounts, pool / cell strings of 65,534 / 65,535 / 65,536 / 66,000 / 70,000 bytes, summary code-page property 0 or absent, code-page id 0 / any of the 26 pages, 1-byte integer size field, no _Validation, "
-         "unsorted rows, 32 columns, property sets with shuffled value/table order, gaps, padding, all 7 value types); one directed scenario family per option + random "
+         "unsorted rows, 32 columns, stream names in every packing situation, property sets with shuffled value/table order, gaps, padding, all 7 value types, empty strings of size 0); one directed scenario family per option + random "
          "combinations; then 2-6 API changes on one table / streams / summary; distinct = (option set, table count, row-count class); non-trivial = the file opened and both legs ran",
     level_text="Leg 1 compares everything the public API reports (type, code page, tables, column definitions, rows in file order, summary, streams) with the expectation "
                "computed from the harness decoder alone; leg 2 decodes the file saved after API changes and requires untouched tables cell-for-cell identical and the touched "
@@ -318,7 +318,8 @@ prop(
     technique="boundary runtime monitor: panic supervisor + 'Err changed nothing' snapshot + 'Ok reopens identically' close-point check at L-1, L, L+1 of every capacity limit, approached in three ways",
     rule="limits: 32 columns; 65,536 rows per table; 65,535 string-pool entries with two-byte references; 31 UTF-16 units of stored stream/table name; 32/64-character catalog "
          "widths for table and column names; each approached (a) in one batch, (b) incrementally over several calls with reopen in between, (c) again after deletions freed "
-         "capacity, (d) create_table at a nearly full pool; a refused step must also leave the saved file's string accounting intact; distinct = (limit, approach, step); non-trivial = the boundary step executed and all three oracles ran",
+         "capacity, (d) create_table at a nearly full pool, sessions that only lower reference counts, reference-count overflow, an existing string after a freed entry, null / empty-string "
+         "updates at a full pool, the row limits of _Columns and _Validation, cells of 65,534..131,071 bytes; a refused step must also leave the saved file's string accounting intact; distinct = (limit, approach, step); non-trivial = the boundary step executed and all three oracles ran",
     level_text="Directed boundary scenarios on the real library: every step that must succeed is required to succeed and to reopen identically, every step beyond a limit must "
                "return Err, leave live and reopened state unchanged, and never panic or save a file the library then refuses.",
     level_note="The pool limit is located dynamically (entries counted by the independent decoder). Panics are catchable here, so no worker subprocess is needed.",
